@@ -200,3 +200,21 @@ def parseCase (i : Json) : Except String Case := do
 def modelObs (c : Case) : Json := jOfList (obsJson c.graph) (run c.graph c.ops)
 
 end CylcModel.Sched
+
+namespace CylcModel.Sched
+open Lean CylcModel.Drv
+
+/-- a run in which the real scheduler raised an exception is never a behaviour of the model -/
+def crashReply? (i : Json) : Option Reply :=
+  match jStrField? i "crash" with
+  | some msg => some { model := Json.null, holds := false, why := s!"scheduler-exception: {msg}" }
+  | none => none
+
+/-- the observations as a list -/
+def obsList (o : Json) : List Json := (jArr? o).getD []
+
+def poolOf (ob : Json) : List Json := (jArrField? ob "pool").getD []
+
+def keyOf (t : Json) : Int × String := ((jIntField? t "p").getD 0, (jStrField? t "n").getD "")
+
+end CylcModel.Sched
